@@ -12,8 +12,24 @@ pub fn dispatch(op: &str, req: &Value) -> Option<R> {
     })
 }
 
+use std::sync::atomic::{AtomicBool, Ordering::Relaxed};
+
+/// compact mode: elements longer than 64 bytes are reported as "<len>:<sha256 prefix>" instead of hex (for programs that build huge elements)
+static COMPACT: AtomicBool = AtomicBool::new(false);
+
 fn stack_json(s: &[Vec<u8>]) -> Value {
-    Value::Array(s.iter().map(|x| Value::String(hex::encode(x))).collect())
+    let compact = COMPACT.load(Relaxed);
+    Value::Array(
+        s.iter()
+            .map(|x| {
+                if compact && x.len() > 64 {
+                    Value::String(format!("{}:{}", x.len(), &Hash::sha_256(x).to_hex()[..16]))
+                } else {
+                    Value::String(hex::encode(x))
+                }
+            })
+            .collect(),
+    )
 }
 
 fn state_json(s: &State) -> Value {
@@ -39,6 +55,7 @@ fn make(req: &Value) -> Result<Interpreter, E> {
 }
 
 fn interp(req: &Value) -> R {
+    COMPACT.store(bo(req, "compact"), Relaxed);
     let max_steps = un(req, "max_steps")? as usize;
     let trace = bo(req, "trace");
     let mode = st_opt(req, "mode").unwrap_or("both");
